@@ -106,6 +106,15 @@ def make_cases(rng, tier):
         for y in ys:
             items += [(("and", [x, ("not", y)]), rows), (("or", [x, ("not", y)]), rows), (("and", [("not", y), x]), rows),
                       (("not", ("and", [("and", [x]), ("not", y)])), rows)]
+    # disjunctions whose branches share conjuncts (a shared term next to a conjunction that contains it, two
+    # conjunctions sharing a term, the same term twice), bare and as one conjunct of an AND
+    for x in atoms:
+        for y in atoms:
+            for z in atoms:
+                shapes = [("or", [x, ("and", [x, z])]), ("or", [("and", [x, z]), x]), ("or", [("and", [x, y]), ("and", [x, z])]),
+                          ("or", [("and", [y, x]), ("and", [x, z]), x])]
+                for q in shapes:
+                    items += [(q, rows), (("and", [("not", y), q]), rows)]
     n = 600 if tier == "quick" else 6000
     for _ in range(n):
         c = gen.gen_schema(rng, allow_empty=False)
